@@ -28,6 +28,8 @@ IMPORTS = {
     "import_typing": ("import typing", None),
     "from_typing_tc": ("from typing import TYPE_CHECKING", None),
     "import_two": ("import os.path, json", "json.dumps(1)"),
+    # a drop-in replacement imported under the name of a module the stub imports from (`import regex as re`)
+    "import_json_as_nmfoo": ("import json as nmfoo", "nmfoo.dumps(1)"),
     # a class named like a class of another module that stubs import (fxh.Outer): `Outer` from M1 at runtime while the stub
     # brings `Outer` from M2 and another name from M1
     "from_twinmod_Outer": ("from twinmod import Outer", "Outer.Nested.__name__"),
@@ -114,6 +116,12 @@ def source(draw):
                 f0["ps"][0]["traced"] = 17
             else:
                 f0["ps"] = [dict(name="p0", default=None, anno=None, traced=17)]
+    if "import_json_as_nmfoo" in imps:
+        # ... and the traces do bring a class of that module into the stub
+        fs = [it for kind, it in items if kind == "func"] + [m for kind, it in items if kind == "class" for m in it["methods"] if m["method"] != "property"]
+        if fs:
+            fs[-1]["traced"] = True
+            fs[-1]["ret_traced"] = 9
     return dict(doc=draw(st.booleans()), future=draw(st.sampled_from([None, None, "from __future__ import annotations", "from __future__ import division"])),
                 lead_comment=draw(st.booleans()), imports=imps, import_after_code=draw(st.sampled_from([None, None, "from_nmfoo", "import_os"])),
                 tc_block=draw(st.sampled_from([None, None, "from fxh import Other", "import nmfoo"])),
